@@ -35,10 +35,14 @@ def fixtures():
 
     class Empty(S.Serializable):
         pass
+
+    class Bag(S.Serializable):              # container-annotated fields whose declared default is not a container: the constructor installs fresh empty
+        items: list = None                  # containers, and an application may well set them back to None ("not loaded yet" is not "empty")
+        extra: dict = None
     class Opp(S.SerializableEnum):          # string-valued; every member's NAME is another member's VALUE
         NORTH = "SOUTH"
         SOUTH = "NORTH"
-    _fix.update(S=S, Color=Color, Shape=Shape, Facing=Facing, Point=Point, Empty=Empty, Opp=Opp, PointBase=PointBase)
+    _fix.update(S=S, Color=Color, Shape=Shape, Facing=Facing, Point=Point, Empty=Empty, Opp=Opp, PointBase=PointBase, Bag=Bag)
     return _fix
 
 
